@@ -108,15 +108,15 @@ def run(out, tier, seed):
     sel = (special[:150 if quick else 600] + wheres)[:500 if quick else 2000]
     jobs = []
     G1 = [[I("n1"), I("p"), N(1)], [I("n1"), I("q"), I("n1")], [I("n2"), I("p"), N(2)], [I("n2"), I("q"), N(1)], [I("n1"), I("p"), I("n2")], [I("n2"), I("q"), I("n3")]]
-    stores = [("graph", "Memory"), ("graph", "SimpleMemory"), ("graph", "Auditable"), ("aggregate", "Memory")]
+    stores = [("graph", "Memory"), ("graph", "SimpleMemory"), ("graph", "Auditable"), ("aggregate", "Memory"), ("graph_shared", "Memory"), ("graph_shared", "Auditable")]
     nrew = 0
     for i, w in enumerate(sel):
         data = {"op": "data", "quads": [t + ["D"] for t in (G1 if i % 2 == 0 else qgen.random_graph(rng))], "graphs": []}
         q = {"form": "select", "proj": ["*"], "where": w}
         variants = [("original", q)] + rewrites(q, rng)
         for vi, (name, qv) in enumerate(variants):
-            fac, st = stores[(i + vi) % 4]
-            jobs.append({"cfg": {"facade": fac, "store": st}, "events": [data, {"op": "query", "q": qv, "prefixed": bool((i + vi) % 2), "rewrite": name}]})
+            fac, st = stores[(i + vi) % len(stores)]
+            jobs.append({"cfg": {"facade": fac, "store": st}, "events": [data, {"op": "query", "q": qv, "prefixed": [False, True, "base-rel"][(i + vi) % 3], "rewrite": name}]})
             nrew += name != "original"
         # (b) initBindings on outermost-BGP variables
         first = w["elts"][0]
